@@ -1361,6 +1361,16 @@ class Harness:
         return rec
 
 
+class _Unbuilt:
+    """Stand-in for a harness whose policy objects could not be constructed."""
+
+    breaker = None
+    budget = None
+    obj = None
+    _pre = ()
+    fault = None
+
+
 def _elsewhere(fault, step):
     """Perform one step of a coroutine - here: the one that ends it.  With fault["thread"] == "other" the step runs on a different OS
     thread than the one that started the coroutine (an event loop in a worker thread shut down from the main thread; a coroutine
@@ -1446,7 +1456,22 @@ def run(sc, entry, *, wall_seed=0, wall_mode="jump", manual=True):
         if sc.get("warnings_as_errors"):
             # the process escalates warnings to errors (python -W error, pytest filterwarnings = error)
             warnings.simplefilter("error")
-        h = Harness(sc, entry, world)
+        try:
+            h = Harness(sc, entry, world)
+        except Exception as x:  # noqa: BLE001
+            # the library refused (or choked on) a configuration the scenario considers legal: every call of the scenario "ends" with
+            # that error before anything ran - the oracles judge it like any other delivery
+            h = _Unbuilt()
+            recs = []
+            for k in range(len(sc["calls"])):
+                rec = Rec(sc["calls"][k], entry, k)
+                rec.final = ("raise", x)
+                rec.counts = {}
+                rec.hits = dict(world.hits)
+                rec.trace.append(("construction-failed", type(x).__name__, str(x)[:80]))
+                recs.append(rec)
+            world.trace = None
+            return recs, h, world
         recs = []
         for k in range(len(sc["calls"])):
             if h.is_async:
